@@ -192,7 +192,11 @@ def _run_calls(scn, tid, impl, conv, parser, orig_parse, captured, hostfns, name
                 else:
                     A = impl['ast_ops']
                     node = A.LambdaOp(args=[A.NameOp(p) for p in x['params']], expr=orig_parse(x['body']))
-                ast_spec.append({'name': k, 'tree': tree_to_spec(impl, node, conv, counter, nodeids)})
+                # one specification tree per node OBJECT (a caching parser hands out the same object for the same text)
+                nk = id(node)
+                if nk not in state.setdefault('ast_specs', {}):
+                    state['ast_specs'][nk] = (node, tree_to_spec(impl, node, conv, counter, nodeids))
+                ast_spec.append({'name': k, 'tree': state['ast_specs'][nk][1]})
                 astn[k] = node
                 if scn.get('ast_shared'):
                     state['ast_nodes'][key] = (node, ast_spec[-1]['tree'])
@@ -300,6 +304,8 @@ def _run_calls(scn, tid, impl, conv, parser, orig_parse, captured, hostfns, name
             'functions_frozen': TRACER.functions_digest() == digest0}
     if loop is not None:
         case['repl'] = loop
+    if scn.get('list_names') and scn.get('listed_all'):
+        case['listedall'] = True      # (no lambdas kept across calls in these scenarios: every call's requests are checked against its own list_names)
     case['bound'] = scn.get('bound') or size_bound(names_py, rets or {}, [c['src'] for c in scn['calls']])
     return case
 
